@@ -235,7 +235,7 @@ def c_unknown_command_ctor(k: int) -> bool:
 from vlib.seqz import core as Z
 from vlib.seqz import prims as _prims
 
-_E3_ORIG = Z.encode_methods(M.AdbTransportAdapter, ['write_message', 'read_message'], {'threading': _prims.threading})
+SeqAdapter, _E3_ORIG = Z.encode_subclass(M.AdbTransportAdapter, ['write_message', 'read_message'], {'threading': _prims.threading})
 BOUNDS['interleavings'] = 'two writers / two readers on one adapter; <= 2 preemptions at symbolic steps (statement-level yields inside write_message/read_message) plus the choice of the next thread when one blocks; timeout-expired bits symbolic'
 STUBS.append('E3: cooperative Lock for _reader_lock/_writer_lock, scheduler with symbolic decisions (vlib/seqz)')
 OUTSIDE[:] = [o for o in OUTSIDE if 'interleaving' not in o] + ['preemption inside transport.write/read or inside non-encoded callees']
@@ -248,7 +248,7 @@ def FUNCTIONS():
 
 
 def _adapter(t):
-  ad = M.AdbTransportAdapter(t)
+  ad = SeqAdapter(t)
   ad._reader_lock = _prims.Lock()
   ad._writer_lock = _prims.Lock()
   return ad
@@ -263,10 +263,10 @@ def _reader(ad, out, expired):
   out.append((m.command, m.arg0, m.data))
 
 
-@cond(timeout=900)
+@cond(timeout=900, split={'t0': range(2), 't1': range(2), 'e0': (False, True)})
 def c_two_writers_do_not_interleave(p0: int, t0: int, p1: int, t1: int, k0: int, e0: bool, e1: bool) -> bool:
   """
-  pre: 0 <= p0 <= 30 and 0 <= t0 <= 1 and p0 <= p1 <= 30 and 0 <= t1 <= 1
+  pre: 0 <= p0 <= 18 and 0 <= t0 <= 1 and p0 <= p1 <= 18 and 0 <= t1 <= 1
   pre: 0 <= k0 <= 1
   post: _
   """
@@ -290,10 +290,10 @@ def c_two_writers_do_not_interleave(p0: int, t0: int, p1: int, t1: int, k0: int,
   return w == [ha, 'aa', hb, 'b'] or w == [hb, 'b', ha, 'aa']
 
 
-@cond(timeout=900)
+@cond(timeout=900, split={'t0': range(2), 't1': range(2), 'e0': (False, True)})
 def c_two_readers_get_whole_frames(p0: int, t0: int, p1: int, t1: int, k0: int, e0: bool, e1: bool) -> bool:
   """
-  pre: 0 <= p0 <= 30 and 0 <= t0 <= 1 and p0 <= p1 <= 30 and 0 <= t1 <= 1
+  pre: 0 <= p0 <= 18 and 0 <= t0 <= 1 and p0 <= p1 <= 18 and 0 <= t1 <= 1
   pre: 0 <= k0 <= 1
   post: _
   """
